@@ -184,6 +184,12 @@ def one(ctx, case, tmpdir):
     for f in os.listdir(tmpdir):
         p = os.path.join(tmpdir, f)
         shutil.rmtree(p) if os.path.isdir(p) else os.unlink(p)
+    if "regionsaver" in case["observers"] and not case.get("stop") and not case.get("short_reads") and (case.get("sched_seed", 0) >> 3) % 4 == 0:
+        # files with exactly the names this run will produce are already there (an earlier run with the same template)
+        bps_ = case["width"] * case["channels"]
+        names = [case["template"].format(id=i_, start=s_, end=e_, duration=len(b_) / (bps_ * case["rate"])) for i_, s_, e_, b_ in P.split_reference(data, case)]
+        case = dict(case, stale_region_files=names[:1] + names[-1:], stale_files=True)
+        ctx.count("runs_with_files_of_an_earlier_run_in_the_way")
     res = P.run_pipeline(case, data, tmpdir)
     if case.get("stop"):
         # a stop arrived: the files must agree with what was actually read (C14 decides the stop itself)
@@ -586,7 +592,7 @@ def inconclusive(merged, tier):
     c = merged["counters"]
     need = ["scheduled_runs", "saver_runs", "blocks_checked", "joiner_files_checked", "joiner_files_with_zero_events",
             "region_dirs_checked", "region_files_checked", "runs_on_empty_stream", "runs_on_event_free_stream", "runs_with_a_stop", "runs_with_short_reads",
-            "big_audio_runs", "runs_with_blocks_that_look_like_internal_messages", "saver_runs_over_an_overlapping_reader", "line_mode_runs", "instruction_mode_runs", "all_module_line_mode_runs", "timeouts_fired", "systematic_schedules", "systematic_pipelines_fully_enumerated", "stress_runs", "stress_files_checked", "huge_backlog_runs", "raw_export_runs", "unencodable_export_runs", "two_pipeline_runs", "timeout_marathon_runs"]
+            "big_audio_runs", "runs_with_files_of_an_earlier_run_in_the_way", "runs_with_blocks_that_look_like_internal_messages", "saver_runs_over_an_overlapping_reader", "line_mode_runs", "instruction_mode_runs", "all_module_line_mode_runs", "timeouts_fired", "systematic_schedules", "systematic_pipelines_fully_enumerated", "stress_runs", "stress_files_checked", "huge_backlog_runs", "raw_export_runs", "unencodable_export_runs", "two_pipeline_runs", "timeout_marathon_runs"]
     out = [f"monitor never observed {k}" for k in need if c.get(k, 0) == 0]
     if c.get("max:queue_depth", 0) < 16384:
         out.append("the writer never lagged by more than 16384 blocks")
